@@ -35,3 +35,19 @@ def match(known, failing):
         except Exception:
             continue
     return None
+
+
+@predicate("sweep_path_im")
+def _sweep_path_im(inp):
+    return str(inp.get("path", "")).endswith(".im")
+
+
+@predicate("from_str_approx_branch")
+def _from_str_approx(inp):
+    return abs(int(inp.get("decimal_exponent", 0))) > 400
+
+
+@predicate("nstr_long_mantissa")
+def _nstr_long(inp):
+    n = int(inp.get("n", 0))
+    return int(inp.get("bc", 0)) > int((n + 3) * 3.3219280948873626) + 10
